@@ -9,9 +9,6 @@ Proof. reflexivity. Qed.
 Lemma Constant_char w c : Constant_propagate w c = trunc w c.
 Proof. reflexivity. Qed.
 
-Lemma AddCarryIn_char w a b ci : AddCarryIn_propagate w a b ci = trunc w (a + b + ci).
-Proof. reflexivity. Qed.
-
 Lemma Sub_char w a b : 0 <= w -> Sub_propagate w a b = trunc w (a - b).
 Proof. intros Hw. unfold Sub_propagate. cbv zeta. rewrite Wire_put_trunc. apply trunc_idem; lia. Qed.
 
@@ -37,14 +34,6 @@ Lemma And2_bit x y : 0 <= x <= 1 -> 0 <= y <= 1 -> And2_propagate 1 x y = x * y.
 Proof.
   intros Hx Hy. assert (Hc : x = 0 \/ x = 1) by lia. assert (Hd : y = 0 \/ y = 1) by lia.
   destruct Hc as [-> | ->], Hd as [-> | ->]; reflexivity.
-Qed.
-
-(* Range: ((a >> low) & ((1 << (high-low+1)) - 1)) through a wr-bit wire *)
-Lemma Range_char wr high low a : 0 <= wr -> 0 <= low <= high ->
-  Range_propagate wr high low a = trunc wr (trunc (high - low + 1) (a / 2 ^ low)).
-Proof.
-  intros Hw Hl. unfold Range_propagate. cbv zeta. rewrite Wire_put_trunc.
-  unfold py_shr. rewrite shiftr_div by lia. reflexivity.
 Qed.
 
 (* what FixedPointMult needs from Range: high = low + wr asks for wr+1 bits, the wr-bit wire keeps wr of them.
